@@ -55,6 +55,7 @@ Inductive op : Type :=
 | OTry (body : list op) (cs : list nat) (h : list op)
 | OLock (m : mid) | OUnlock (m : mid) | OTrySpin (m : mid)
 | OWith (m : mid) (body : list op)
+| OTryOnce (m : mid) (body : list op)      (* if (trylock(m)) { body; unlock(m); }  — skipped when busy *)
 | OIncr (m : mid)                         (* cell = cell + 1, as a load and a store *)
 | OSpawn (t : tid) | OJoin (t : tid) | OPeek (t : tid).
 
@@ -158,7 +159,8 @@ Definition do_throw (l : lstate) (e : nat) (c : list kitem) : lstate :=
   else set_fatal (emit (set_code (set_exc l (mkE 0 (active x) (Some e))) []) (EvFatal e)).
 
 (* the thread-local effect of one instruction; synchronisation instructions only advance *)
-Definition lstep (l : lstate) : lstate :=
+(* `ok` = the answer of trylock when the instruction is OTryOnce (ignored by every other instruction) *)
+Definition lstep (ok : bool) (l : lstate) : lstate :=
   if done l || fatal l then l else
   match code l with
   | [] =>   (* Thread_Init_Run: function returned; del_raw(exc); del_raw(gc) sweeps everything *)
@@ -201,6 +203,7 @@ Definition lstep (l : lstate) : lstate :=
       | OTry body cs h =>      (* exception_try: depth++, active = false *)
           set_code (set_exc l (mkE (S (depth (exc l))) false (eobj (exc l)))) (map KOp body ++ KEndTry cs h :: c)
       | OWith m body => set_code l (map KOp body ++ KEndWith m :: c)
+      | OTryOnce m body => if ok then set_code l (map KOp body ++ KEndWith m :: c) else set_code l c
       | OIncr m => set_code l (KStore m :: c)
       | OLock _ | OUnlock _ | OTrySpin _ | OSpawn _ | OJoin _ | OPeek _ => set_code l c
       end
@@ -229,7 +232,8 @@ Record sstate := mkS {
   holding : list mid;         (* mutexes this thread acquired and has not released *)
   tmp : nat;                  (* the loaded value of a pending non-atomic increment *)
   seen : list (tid * list ev);(* result traces of other threads read by OPeek, newest first *)
-  steps : nat;                (* number of instructions executed (ghost) *)
+  hist : list bool;           (* ghost: one entry per executed instruction, newest first: the trylock answer
+                                 of an OTryOnce, true for everything else *)
   ub : bool }.                (* undefined behaviour reached (unlock of a mutex not held, second join, ...) *)
 
 Record gstate := mkG {
@@ -249,7 +253,8 @@ Fixpoint upd {A} (l : list A) (i : nat) (x : A) : list A :=
 Definition fupd {A} (f : nat -> A) (i : nat) (x : A) : nat -> A :=
   fun j => if j =? i then x else f j.
 
-Definition sinit (st : bool) : sstate := mkS st false [] 0 [] 0 false.
+Definition sinit (st : bool) : sstate := mkS st false [] 0 [] [] false.
+Definition steps (s : sstate) : nat := length (hist s).
 
 Fixpoint init_from (t : tid) (ps : list (list op)) : list (lstate * sstate) :=
   match ps with
@@ -261,24 +266,26 @@ Fixpoint init_from (t : tid) (ps : list (list op)) : list (lstate * sstate) :=
 Definition ginit (ps : list (list op)) : gstate :=
   mkG (init_from 0 ps) (fun _ => None) (fun _ => 0) (mkE 0 false None) false.
 
-Definition bump (s : sstate) : sstate :=
-  mkS (started s) (joined s) (holding s) (tmp s) (seen s) (S (steps s)) (ub s).
-Definition set_holding (s : sstate) h := mkS (started s) (joined s) h (tmp s) (seen s) (steps s) (ub s).
-Definition set_tmp (s : sstate) v := mkS (started s) (joined s) (holding s) v (seen s) (steps s) (ub s).
-Definition add_seen (s : sstate) x := mkS (started s) (joined s) (holding s) (tmp s) (x :: seen s) (steps s) (ub s).
-Definition set_ub (s : sstate) := mkS (started s) (joined s) (holding s) (tmp s) (seen s) (steps s) true.
-Definition set_started (s : sstate) := mkS true (joined s) (holding s) (tmp s) (seen s) (steps s) (ub s).
-Definition set_joined (s : sstate) := mkS (started s) true (holding s) (tmp s) (seen s) (steps s) (ub s).
+Definition bump (ok : bool) (s : sstate) : sstate :=
+  mkS (started s) (joined s) (holding s) (tmp s) (seen s) (ok :: hist s) (ub s).
+Definition set_holding (s : sstate) h := mkS (started s) (joined s) h (tmp s) (seen s) (hist s) (ub s).
+Definition set_tmp (s : sstate) v := mkS (started s) (joined s) (holding s) v (seen s) (hist s) (ub s).
+Definition add_seen (s : sstate) x := mkS (started s) (joined s) (holding s) (tmp s) (x :: seen s) (hist s) (ub s).
+Definition set_ub (s : sstate) := mkS (started s) (joined s) (holding s) (tmp s) (seen s) (hist s) true.
+Definition set_started (s : sstate) := mkS true (joined s) (holding s) (tmp s) (seen s) (hist s) (ub s).
+Definition set_joined (s : sstate) := mkS (started s) true (holding s) (tmp s) (seen s) (hist s) (ub s).
 
 Definition rem_mid (m : mid) (h : list mid) : list mid := filter (fun x => negb (x =? m)) h.
 
 (* thread t executes its instruction: core := lstep (through the exception record the
    variant selects), sync side := s' with the step counted *)
-Definition advance (g : gstate) (t : tid) (l : lstate) (s' : sstate) : gstate :=
+Definition advance_ok (ok : bool) (g : gstate) (t : tid) (l : lstate) (s' : sstate) : gstate :=
   let lv := if shared_exc then set_exc l (gexc g) else l in
-  let l' := lstep lv in
-  mkG (upd (thr g) t (l', bump s')) (mtx g) (cells g)
+  let l' := lstep ok lv in
+  mkG (upd (thr g) t (l', bump ok s')) (mtx g) (cells g)
       (if shared_exc then exc l' else gexc g) (aborted g || fatal l').
+
+Definition advance := advance_ok true.
 
 Definition set_mtx (g : gstate) m v := mkG (thr g) (fupd (mtx g) m v) (cells g) (gexc g) (aborted g).
 Definition set_cell (g : gstate) m v := mkG (thr g) (mtx g) (fupd (cells g) m v) (gexc g) (aborted g).
@@ -320,6 +327,12 @@ Definition gstep (t : tid) (g : gstate) : gstate :=
     | KOp (OLock m) :: _ => acquire g t l s m false
     | KOp (OWith m _) :: _ => acquire g t l s m false
     | KOp (OTrySpin m) :: _ => acquire g t l s m true
+    | KOp (OTryOnce m _) :: _ =>
+        match mtx g m with
+        | None => advance (set_mtx g m (Some t)) t l (set_holding s (m :: holding s))
+        | Some _ => if busy_result then advance g t l (set_holding s (m :: holding s))
+                    else advance_ok false g t l s          (* trylock said false: the section is skipped *)
+        end
     | KOp (OUnlock m) :: _ => release g t l s m
     | KEndWith m :: _ => release g t l s m
     | KOp (OIncr m) :: _ =>
@@ -358,8 +371,11 @@ Definition gstep (t : tid) (g : gstate) : gstate :=
 
 Definition run (sched : list tid) (g : gstate) : gstate := fold_left (fun g t => gstep t g) sched g.
 
-(* the thread on its own: n instructions, every synchronisation instruction succeeds at once *)
-Definition alone (n : nat) (l : lstate) : lstate := Nat.iter n lstep l.
+(* the thread on its own, given the answers its trylock attempts get (h: newest first, one entry per
+   instruction); every other synchronisation instruction succeeds at once *)
+Definition alone (h : list bool) (l : lstate) : lstate := fold_right lstep l h.
+(* ... when every trylock succeeds (nobody else is there) *)
+Definition alone_n (n : nat) (l : lstate) : lstate := alone (repeat true n) l.
 
 Definition core (g : gstate) (t : tid) : option lstate := option_map fst (nth_error (thr g) t).
 Definition side (g : gstate) (t : tid) : option sstate := option_map snd (nth_error (thr g) t).
